@@ -6,7 +6,7 @@ from harness.props import base
 
 PROP = {
     "id": "C15",
-    "quick_n": 120,
+    "quick_n": 200,
     "thorough_n": 2500,
     "rule": "one program = a valid document (toJson of a random reachable state of a random tree) "
             "followed by single-point structural mutations of it at random positions: delete a "
